@@ -23,7 +23,7 @@ ASSUMPTIONS = [
 ]
 SIGNATURES = ()
 
-METRICS = ['a', 'b', '', 'c', 'd', 'e']     # '' is a legal (and falsy) metric name: the pickle listener delivers it
+METRICS = ['a', 'b', '', 'c', 'd;z=1;b=2', 'e;x']     # '' is legal and falsy; tags in non-canonical order / not parsable as tags: cached and queried as received
 
 
 @st.composite
